@@ -332,7 +332,7 @@ theorem decodesEnd_legacy16Response (st : Legacy16Status) (h : wf16 st = true) :
   have hxa := natDec_ascii st.max
   unfold legacy16Response
   refine DecodesEnd.bind (decodes_readUtf16 .big _ hpa.scalars hpa.no_nul) ?_ rfl
-  rw [hpa.utf8, parseSigned_intDec 32 _ (by simpa using hlo) (by simpa using hhi)]
+  rw [hpa.utf8, mc_parseSigned_intDec 32 _ (by simpa using hlo) (by simpa using hhi)]
   refine DecodesEnd.bind (Decodes.lift_ok _) ?_ (List.nil_append _).symm
   refine DecodesEnd.bind (decodes_readUtf16 .big _ hvs (hv0 0 (by simp))) ?_ rfl
   refine DecodesEnd.bind (decodes_readUtf16 .big _ hms (hm0 0 (by simp))) ?_ rfl
